@@ -162,8 +162,17 @@ func describeOps(ops []porcupine.Operation, txns map[int]*hTxn, limit int) strin
 }
 
 // checkOps runs the projections (single keys, then pairs) and, if all are fine, the full history.
+// histories with more operations than this come from crowd cases (>100 concurrent clients), where
+// porcupine is hopeless; they are judged by the cheap definite rules only (lostUpdates,
+// conflictRules, localRules) and the checker reports "skipped"
+var lightCheckThreshold = 1 << 30
+
 func checkOps(ops []porcupine.Operation, nkeys int, timeout time.Duration, txns map[int]*hTxn) histVerdict {
 	v := histVerdict{Ops: len(ops)}
+	if len(ops) > lightCheckThreshold {
+		v.Result = "skipped"
+		return v
+	}
 	run := func(sel map[int]bool, label string) (porcupine.CheckResult, []porcupine.Operation) {
 		var sub []porcupine.Operation
 		for _, o := range ops {
@@ -286,6 +295,51 @@ func serOps(txns []*hTxn) []porcupine.Operation {
 
 type histFinding struct {
 	Prop, Sig, Detail string
+}
+
+// lostUpdates: two committed transactions read the same version of a key from the store and both
+// overwrote that key - neither can be serialized after the other (definite, cheap, any history size).
+func lostUpdates(txns []*hTxn) []histFinding {
+	deletes := map[int]bool{}
+	for _, t := range txns {
+		for _, w := range t.Writes {
+			if w.V == 0 {
+				deletes[w.K] = true
+			}
+		}
+	}
+	type kv struct {
+		k int
+		v int32
+	}
+	first := map[kv]*hTxn{}
+	var out []histFinding
+	for _, t := range txns {
+		if !t.committedWriter() {
+			continue
+		}
+		fw := t.finalWrites()
+		seen := map[kv]bool{}
+		for _, r := range t.storeReads() {
+			if _, writes := fw[r.K]; !writes || r.V < 0 || (r.V == 0 && deletes[r.K]) {
+				continue
+			}
+			key := kv{r.K, r.V}
+			if seen[key] {
+				continue
+			}
+			seen[key] = true
+			if o := first[key]; o != nil && o.ID != t.ID {
+				out = append(out, histFinding{"C06", "lost-update", fmt.Sprintf("%s and %s both read k%d=%d from the store and both overwrote k%d, and both committed", o, t, r.K, r.V, r.K)})
+				if len(out) >= 3 {
+					return out
+				}
+				continue
+			}
+			first[key] = t
+		}
+	}
+	return out
 }
 
 // localRules: read-your-writes, no reads of values that were never committed (G1a) or that were
@@ -548,6 +602,12 @@ func histSelfTest() error {
 		if got := checkOps(serOps(c.txns), 2, 5*time.Second, m).Result; got != c.ser {
 			return fmt.Errorf("history self-test %q: SER says %s, want %s", c.name, got, c.ser)
 		}
+	}
+	if f := lostUpdates(cases[3].txns); len(f) != 1 {
+		return fmt.Errorf("history self-test: lost update not flagged by the cheap rule: %v", f)
+	}
+	if f := lostUpdates(cases[5].txns); len(f) != 0 {
+		return fmt.Errorf("history self-test: false alarm of the cheap lost-update rule: %v", f)
 	}
 	// local rules
 	ab := []*hTxn{
